@@ -568,3 +568,33 @@ Definition agrees (v : variant) (conns : list (list req)) (Ts : list (list event
   | None => false
   | Some (Ms, n) => traces_eqb Ms Ts && Nat.eqb n live
   end.
+
+(* ------------------------------------------------------------------ *)
+(* Concurrent connections: identifiers                                  *)
+(* ------------------------------------------------------------------ *)
+
+(* One exchange of a batch of connections served concurrently, as the
+   modifiers observe it: (connection, context ID, session ID). *)
+Definition cobs := (nat * nat * nat)%type.
+Definition co_conn (o : cobs) : nat := fst (fst o).
+Definition co_ctx (o : cobs) : nat := snd (fst o).
+Definition co_sess (o : cobs) : nat := snd o.
+
+(* A schedule says which connection performs the next exchange.  withSession
+   (context.go 301-312) draws a fresh identifier for every exchange, newSession
+   one per connection; drawing is atomic (newID reads crypto/rand into a slice
+   of its own), so in the model the j-th draw of the run gets identifier
+   [next + j] whatever the schedule, and connection k keeps session k. *)
+Fixpoint conc_run (next : nat) (sched : list nat) : list cobs :=
+  match sched with
+  | [] => []
+  | k :: rest => (k, next, k) :: conc_run (S next) rest
+  end.
+
+(* oracle for a concurrent batch: context IDs pairwise distinct over ALL
+   exchanges of the run; two exchanges have the same session exactly when
+   they belong to the same connection *)
+Definition conc_ok (obs : list cobs) : bool :=
+  nodupb (map co_ctx obs)
+  && forallb (fun a => forallb (fun b =>
+       Bool.eqb (Nat.eqb (co_conn a) (co_conn b)) (Nat.eqb (co_sess a) (co_sess b))) obs) obs.
